@@ -209,6 +209,64 @@ Fixpoint segs_fail (tracks : list (Z * bool)) (pd mp : Z) (num : Z) (gs : list o
       let '(bad, rest) := parts_fail tracks pd mp sdts 0 ps exp in
       negb (n =? num) || match ps with [] => true | _ => false end || bad || segs_fail tracks pd mp (num + 1) r rest
   end.
+(* ---- the durations recorded at close (mvhd header, OnSegmentComplete) against the TRUE duration of each file:
+        (the end of the sample that ends last among the samples that must be in the file) - (segment start); with
+        several tracks interleaved in any order this is not the end of the sample written last. No model function. ---- *)
+(* the end of the sample that the failing call (outcome 2) was writing: formatFMP4Segment.write has counted it before
+   formatFMP4Part.write refused it ("reached maximum part size"); a drift error comes before and counts nothing *)
+Fixpoint rejected_end (tracks : list (Z * bool)) (evs : list (Z * Z * Z * Z)) (outs : list Z)
+         (pend : list (Z * (Z * Z))) : option Z :=
+  match evs, outs with
+  | (t, d, _, z2) :: er, o :: or =>
+      match lookup t pend with
+      | None => rejected_end tracks er or ((t, (d, z2)) :: pend)
+      | Some (pd, pz2) =>
+          let d' := Z.max d pd in
+          let r := rate_of tracks t in
+          if o =? 2 then Some (ts2dur pd r + ts2dur (wrapu32 (d' - pd)) r)
+          else rejected_end tracks er or ((t, (d', z2)) :: pend)
+      end
+  | _, _ => None
+  end.
+Definition u32_ms (d : Z) : Z := (d / 1000000) mod 4294967296.        (* uint32(d / time.Millisecond) *)
+Definition dur_ok (hdr rep d : Z) : bool := (rep =? d) && (hdr =? u32_ms d).
+Fixpoint durs_fail (tracks : list (Z * bool)) (pd mp : Z) (gs : list oseg) (reps : list Z) (exp : list xsmp)
+         (rej : option Z) : bool :=
+  match gs with
+  | [] => false
+  | OSeg _ sdts _ hdr ps :: r =>
+      let '(_, rest) := parts_fail tracks pd mp sdts 0 ps exp in
+      let used := firstn (length exp - length rest) exp in
+      let e := fold_left Z.max (map x_end used) sdts in
+      match reps with
+      | [] => true
+      | rep :: reps' =>
+          negb (dur_ok hdr rep (e - sdts)
+                || match r, rej with
+                   | [], Some re => dur_ok hdr rep (Z.max e re - sdts)     (* the file closed after the failed write *)
+                   | _, _ => false
+                   end)
+          || durs_fail tracks pd mp r reps' rest rej
+      end
+  end.
+(* recordings through Recorder + Stream (outcomes not observable): the true duration is read off the file itself -
+   per part and track, base time + sample durations = the end of the track's last sample of the part, in time scale
+   units from the segment start; maximum over parts and tracks; the base time is rounded down to a time scale unit,
+   so the comparison allows one unit of the coarsest track (+ a few ns of rounding) *)
+Definition otrk_end (tracks : list (Z * bool)) (tr : otrk) : Z :=
+  match tr with (t, bs, l) => ts2dur (bs + fold_right Z.add 0 (map fst l)) (rate_of tracks t) end.
+Definition file_media_end (tracks : list (Z * bool)) (ps : list oprt) : Z :=
+  fold_left Z.max (flat_map (fun p => map (otrk_end tracks) (snd p)) ps) 0.
+Definition unit_tol (tracks : list (Z * bool)) : Z :=
+  fold_left Z.max (map (fun tr => nanos / Z.max 1 (fst tr) + 4) tracks) 4.
+Fixpoint rec_durs_fail (tracks : list (Z * bool)) (gs : list oseg) (reps : list Z) : bool :=
+  match gs, reps with
+  | [], _ => false
+  | _ :: _, [] => true
+  | OSeg _ _ _ hdr ps :: r, rep :: reps' =>
+      negb ((Z.abs (rep - file_media_end tracks ps) <=? unit_tol tracks) && (hdr =? u32_ms rep))
+      || rec_durs_fail tracks r reps'
+  end.
 (* with one video track whose first sample is a random access sample (the gate), every file's first sample of that
    track is a random access sample *)
 Fixpoint first_of_track (t : Z) (ps : list oprt) : option osmp :=
@@ -249,17 +307,21 @@ Definition seg_spec_fail (s : stream) (o : obs) : bool :=
   | MkStream tracks pd _ mp evs, MkObs outs gs rep =>
       segs_fail tracks pd mp 0 gs (expected_written tracks evs outs [])
       || negb (Nat.eqb (length rep) (length gs))
+      || durs_fail tracks pd mp gs rep (expected_written tracks evs outs []) (rejected_end tracks evs outs [])
       || sync_fail false s gs
   end.
 (* the recorder run: outcomes are not observable; the files must start on a sync sample, be numbered consecutively,
-   and the samples of every track must appear in the order and with the sizes they were written in *)
+   and record (header and OnSegmentComplete) the true duration of the media they hold *)
 Fixpoint nums_fail (num : Z) (gs : list oseg) : bool :=
   match gs with
   | [] => false
   | OSeg n _ _ _ ps :: r => negb (n =? num) || match ps with [] => true | _ => false end || nums_fail (num + 1) r
   end.
 Definition rec_spec_fail (s : stream) (o : obs) : bool :=
-  match o with MkObs _ gs rep => nums_fail 0 gs || negb (Nat.eqb (length rep) (length gs)) || sync_fail true s gs end.
+  match s, o with
+  | MkStream tracks _ _ _ _, MkObs _ gs rep =>
+      nums_fail 0 gs || negb (Nat.eqb (length rep) (length gs)) || sync_fail true s gs || rec_durs_fail tracks gs rep
+  end.
 
 (* ---- strace: the system calls on a segment file against the write log ---- *)
 Definition zeros (n : Z) : bytes := repeat 0 (Z.to_nat n).
